@@ -975,6 +975,10 @@ class Engine:
         a = self.a
         if self.stale_state or (cvs is None and a.fh_steps is None):
             return
+        if cvs is None and self.spec["kind"] == "online":
+            # (this class documents its own default splitter, which starts with a window; the
+            # default modelled here is the base class's)
+            return
         take = op["take"]
         if a.pos + take > len(a.y):
             return
